@@ -73,6 +73,10 @@ CHECKS = {
          "pos(W(T)) and pos(T) built natively and compared on 10 inputs per base through unmarshaller, marshaller and codec), plus an E1 "
          "differential of the two root unmarshallers on a symbolic x in J for each wrapper kind.", "4/C11",
          "CrossHair/z3 enumeration of wrapper chains (choice variables) + value-symbolic differential execution, native replay"),
+ "C07": ("E1 on the recursive fixtures (symbolic values of depth <= 2: round trip, per-level conformance, plain output), E3+E1 for chains of "
+         "depth d = 0..12 chosen by a choice variable with symbolic leaf ints, and E3 for synthesised cyclic topologies (every directed graph "
+         "over three dataclasses x edge kind x root container x root class, enumerated exhaustively): construction terminates, every level "
+         "is converted, values and the codec round trip.", "4/C07", "CrossHair symbolic execution + exhaustive enumeration of cycle topologies and depths (choice variables), native replay"),
 }
 NA = {
  "C17": "flat catalogue of CPython type objects compared with CPython's own issubclass/typing internals: neither side can be encoded for a solver and there is no value, shape, state or history to make symbolic (DESIGN.md section 7)",
